@@ -1,25 +1,29 @@
 ----------------------------- MODULE MC_FailProb -----------------------------
 EXTENDS FailProb, TLC
 CONSTANTS DMax
-VARIABLES s50, d, t, zoom, z
-vars == <<s50, d, t, zoom, z>>
-Zooms == {1, 100}                        \* all log-distances (median ratio and both scatters) divided by zoom: the probit is a ratio of log-distances and cannot change
+VARIABLES s50, k, d, t, zoom, z
+vars == <<s50, k, d, t, zoom, z>>
+Zooms(c) == {Step(c), 100 * Step(c)}                        \* all log-distances (median ratio and both scatters) divided by zoom: the probit is a ratio of log-distances and cannot change
 S50s == {30, 40, 50}                     \* log10 of the strength median: 1.5, 2, 2.5 decades
-Init == /\ s50 \in S50s /\ d \in (-DMax)..DMax /\ t \in Triples /\ zoom \in Zooms /\ z = Z(d, t[3])
+FarPos == {20, 24, 28, 32, 35, 40, 48, 56}      \* medians up to 2.8 decades apart: probits beyond +-7 (probabilities below 1e-12 / above 1 - 1e-12) for every triple
+Far == FarPos \cup {-x : x \in FarPos}
+Init == /\ s50 \in S50s /\ t \in Triples /\ zoom \in Zooms(t[3])
+        /\ k \in ((-DMax)..DMax) \cup (IF s50 = 40 THEN Far ELSE {})
+        /\ d = k * Step(t[3]) /\ z = Z(d, t[3])
 Next == UNCHANGED vars
 Spec == Init /\ [][Next]_vars
 
 RootIsExact == IsTriple(t)
-ZoomInvariant == Norm(5 * d * zoom, t[3] * zoom) = z           \* (d/zoom) / (c/zoom)
+ZoomInvariant == \A f \in {2, 3, 7} : Norm(5 * d * f, t[3] * f) = z           \* (d/f) / (c/f) for any common divisor f of the log-distances
 (* only the ratio of the medians matters *)
 OnlyTheRatioOfMediansCounts == \A s2 \in S50s : Z((s2 + d) - s2, t[3]) = z
 (* increases with the load median, decreases with the strength median *)
-IncreasesWithLoadMedian == d < DMax => RLt(z, Z(d + 1, t[3]))
-DecreasesWithStrengthMedian == d > -DMax => RLt(Z(d - 1, t[3]), z)        \* strength median one step up = d one step down
+IncreasesWithLoadMedian == RLt(z, Z(d + 1, t[3]))
+DecreasesWithStrengthMedian == RLt(Z(d - 1, t[3]), z)        \* strength median one step up = d one step down
 (* mirror: exchanging the roles gives the complementary probability: probit changes sign *)
 MirrorIsComplement == Z(-d, t[3]) = <<-z[1], z[2]>>
 (* more scatter pulls the probit towards 0 (the probability towards 1/2) *)
-ScatterFlattens == \A t2 \in Triples : t2[3] > t[3] =>
+ScatterFlattens == \A t2 \in Triples : (t2[3] > t[3] /\ ~Slender(t) /\ ~Slender(t2)) =>
                       (IF d > 0 THEN RLt(Z(d, t2[3]), z) ELSE IF d < 0 THEN RLt(z, Z(d, t2[3])) ELSE Z(d, t2[3]) = z)
 (* vanishing load scatter: the deterministic-load value is the a = 0 member of the family *)
 DeterministicIsLimit == t[1] = 0 => z = Norm(5 * d, t[2])
